@@ -506,6 +506,19 @@ example : AllSmemsProp T0 sa0 [65, 84, 71] 1
       [65, 84, 71] 1).map SmemModel.hitObs) :=
   all_smems_bi_model_correct [[65, 84, 84, 67]] sa0 [65, 84, 71] (by decide) (by decide) (by decide) (by decide) 1
     (by decide)
+example : LF.sortedAllB T0 sa0 = true :=
+  sortedAllB_of_checkSA [[65, 84, 84, 67]] sa0 (by decide) (by decide) (by decide)
+example : checkSmems T0 sa0 [65, 84, 71] 1 1
+    ((SmemModel.smems (SmemModel.biOps (LF.lessRef (LF.bwtOf T0 sa0)) (LF.occRef (LF.bwtOf T0 sa0)))
+      [65, 84, 71] 1 1).map SmemModel.hitObs) = true :=
+  smems_model_accepted [[65, 84, 84, 67]] sa0 [65, 84, 71] (by decide) (by decide) (by decide) (by decide) 1 1
+    (by decide) (by decide)
+example : (SmemModel.smems (SmemModel.biOps (LF.lessRef (LF.bwtOf T0 sa0)) (LF.occRef (LF.bwtOf T0 sa0)))
+      [65, 84, 71] 1 1).map (fun h => (h.pos, h.len)) = SmemModel.smemsStr T0 [65, 84, 71] 1 1 :=
+  smems_bi_model_eq_string [[65, 84, 84, 67]] sa0 [65, 84, 71] (by decide) (by decide) (by decide) (by decide) 1 1
+    (by decide)
+example (b len : Nat) : (b, len) ∈ SmemModel.allSmemsStr T0 [65, 84, 71] 1 ↔ (Smem T0 [65, 84, 71] b len ∧ 1 ≤ len) :=
+  all_smems_model_correct T0 [65, 84, 71] 1 (by decide) b len
 example (b len : Nat) : (b, len) ∈ SmemModel.smemsStr T0 [65, 84, 84] 2 1 ↔
     (Smem T0 [65, 84, 84] b len ∧ b ≤ 2 ∧ 2 < b + len ∧ 1 ≤ len) :=
   smems_model_correct T0 [65, 84, 84] 2 1 (by decide) (by decide) b len
